@@ -292,6 +292,10 @@ def history_fault_case(arg):
             with open(os.path.join(src, p), "wb") as f:
                 f.write(b"#!/bin/sh\necho " + p.encode() + b"\n")
             os.chmod(os.path.join(src, p), 0o755)
+        with open(os.path.join(src, "p1b"), "wb") as f:      # (the other sources C01's histories refer to)
+            f.write(b"#!/bin/sh\necho pB\n")
+        os.chmod(os.path.join(src, "p1b"), 0o755)
+        os.symlink("p2", os.path.join(src, "p2l"))
         log = os.path.join(root, "trace.log")
         env = {"LD_PRELOAD": shim, "VP_SHIM_PREFIX": w, "VP_SHIM_MODE": mode, "VP_SHIM_LOG": log, "VP_SHIM_CLASS": CLASSES, "VP_SHIM_K": str(k), "VP_SHIM_ERRNO": str(ERRNOS[ename]), "VP_SHIM_ARMED": "0"}
         mon = vp.Mon("layers", env=env)
